@@ -14,9 +14,12 @@ SiteSeq == SetToSeq(UNION {{<<k, s>> : s \in SitesFor(k, Thorough)} : k \in Judg
 \* (quick: every statement of a kind that has at most two, else one)
 WsSites(k) == IF Thorough \/ Cardinality(SitesOf(k)) <= 2 THEN SitesFor(k, Thorough) ELSE {OneSite(k)}
 WsSiteSeq == SetToSeq(UNION {{<<k, s>> : s \in WsSites(k)} : k \in JudgedKinds})
-AllFams == (1..Len(ParentSeq)) \cup {100 + i : i \in 1..Len(SiteSeq)} \cup {200, 201, 202, 203, 205, 206, 207, 208, 209, 300, 302, 303, 304}
+\* 701..: the whole byte range in identifier-like arguments (quick: one statement per kind, and prefix)
+ByteSites(k) == IF Thorough THEN SitesFor(k, Thorough) ELSE {OneSite(k)} \cup (IF k = "identifier" THEN {<<"prefix", HostKw("prefix")>>} ELSE {})
+ByteSiteSeq == SetToSeq(UNION {{<<k, s>> : s \in ByteSites(k)} : k \in ByteKinds})
+AllFams == (1..Len(ParentSeq)) \cup {100 + i : i \in 1..Len(SiteSeq)} \cup {200, 201, 202, 203, 205, 206, 207, 208, 209, 210, 211, 300, 302, 303, 304}
            \cup {400 + i : i \in 1..Len(ParentSeq)} \cup {500 + i : i \in 1..Len(SiteSeq)}
-           \cup {600 + i : i \in 1..Len(WsSiteSeq)}
+           \cup {600 + i : i \in 1..Len(WsSiteSeq)} \cup {700 + i : i \in 1..Len(ByteSiteSeq)}
 
 Probe(f, lab, tree, clean) ==
   [fam |-> f, lab |-> lab, tree |-> tree, comp |-> Companions(tree), compile |-> TRUE, clean |-> clean,
@@ -34,6 +37,12 @@ RevExtProbes(f) == LET root == IF f = 208 THEN "module" ELSE "submodule" IN
   {Probe(f, <<"rev", root, "ext", "">>, t, TRUE) : t \in RevInterleaved(root)}
 WsProbes(f) == LET kind == WsSiteSeq[f - 600][1]  s == WsSiteSeq[f - 600][2] IN
   {LET t == ArgTree(s[1], s[2], a) IN Probe(f, <<"arg", kind, s[1], a>>, t, FALSE) : a \in WsCands(kind) \cup GramCands(kind, Thorough)}
+ByteProbes(f) == LET kind == ByteSiteSeq[f - 700][1]  s == ByteSiteSeq[f - 700][2] IN
+  {LET t == ArgTree(s[1], s[2], a) IN Probe(f, <<"arg", kind, s[1], a>>, t, FALSE) : a \in ByteCands(kind, Thorough)}
+\* 210 / 211: extension statements named after the parser's own keywords
+ExtNameProbes(f) ==
+  {Probe(f, <<"extname", x.P, x.kw, x.v>>, x.tree, x.P \in ParentIds => CardClean(x.P, ExtKw, 1))
+     : x \in (IF f = 210 THEN ExtNameTrees(Thorough) ELSE ExtInSequence(Thorough))}
 RevProbes == UNION {{Probe(202, <<"rev", root, "", "">>, t, TRUE) : t \in RevTrees(root)} : root \in {"module", "submodule"}}
 KwProbes == {[fam |-> 203, lab |-> <<"kw", k, "", "">>, kwq |-> k, known |-> k \in Keywords] :
                k \in Keywords \cup {ExtKw, "foo", "yin", "p:leaf", "yin_element", "leaflist"}}
@@ -71,6 +80,8 @@ GNext == /\ ~done /\ done' = TRUE /\ UNCHANGED fam
               ELSE IF fam = 205 THEN AggProbes
               ELSE IF fam \in {206, 207} THEN OrderExtProbes(fam)
               ELSE IF fam \in {208, 209} THEN RevExtProbes(fam)
+              ELSE IF fam \in {210, 211} THEN ExtNameProbes(fam)
+              ELSE IF fam >= 701 THEN ByteProbes(fam)
               ELSE IF fam >= 601 THEN WsProbes(fam)
               ELSE IF fam = 300 THEN RandBases
               ELSE IF fam = 302 THEN Hist(<<"cross", "", "">>, CrossHistories(IF Thorough THEN 1000 ELSE 80))
